@@ -199,8 +199,25 @@ fn extra_value(n: &MarkerValueExtra) -> S {
     }
 }
 
-/// The diagram as the public `kind()` walk shows it.
+thread_local! {
+    /// nodes the current dump may still visit: a diagram is a DAG and its unfolding into a tree can be exponentially larger
+    static TREE_BUDGET: std::cell::Cell<i64> = std::cell::Cell::new(0);
+}
+
+/// The diagram as the public `kind()` walk shows it; `(BIG)` when the unfolded tree has more than 40 000 nodes.
 fn tree(t: &MarkerTree) -> S {
+    TREE_BUDGET.with(|b| b.set(40_000));
+    let d = tree_walk(t);
+    if TREE_BUDGET.with(|b| b.get()) < 0 {
+        return S::l(vec![S::a("BIG")]);
+    }
+    d
+}
+
+fn tree_walk(t: &MarkerTree) -> S {
+    if TREE_BUDGET.with(|b| { b.set(b.get() - 1); b.get() }) < 0 {
+        return S::a("F");
+    }
     match t.kind() {
         MarkerTreeKind::True => S::a("T"),
         MarkerTreeKind::False => S::a("F"),
@@ -208,7 +225,7 @@ fn tree(t: &MarkerTree) -> S {
             "V",
             vec![
                 vkey(m.key()),
-                S::l(m.edges().map(|(r, c)| S::l(vec![ranges(r, &version), tree(&c)])).collect()),
+                S::l(m.edges().map(|(r, c)| S::l(vec![ranges(r, &version), tree_walk(&c)])).collect()),
             ],
         ),
         MarkerTreeKind::String(m) => S::tag(
@@ -217,21 +234,21 @@ fn tree(t: &MarkerTree) -> S {
                 skey(m.key()),
                 S::l(m
                     .children()
-                    .map(|(r, c)| S::l(vec![ranges(r, &|s: &String| S::str(s)), tree(&c)]))
+                    .map(|(r, c)| S::l(vec![ranges(r, &|s: &String| S::str(s)), tree_walk(&c)]))
                     .collect()),
             ],
         ),
         MarkerTreeKind::In(m) => S::tag(
             "In",
-            vec![skey(m.key()), S::str(m.value()), tree(&m.edge(true)), tree(&m.edge(false))],
+            vec![skey(m.key()), S::str(m.value()), tree_walk(&m.edge(true)), tree_walk(&m.edge(false))],
         ),
         MarkerTreeKind::Contains(m) => S::tag(
             "Co",
-            vec![skey(m.key()), S::str(m.value()), tree(&m.edge(true)), tree(&m.edge(false))],
+            vec![skey(m.key()), S::str(m.value()), tree_walk(&m.edge(true)), tree_walk(&m.edge(false))],
         ),
         MarkerTreeKind::Extra(m) => S::tag(
             "Ex",
-            vec![extra_value(m.name()), tree(&m.edge(true)), tree(&m.edge(false))],
+            vec![extra_value(m.name()), tree_walk(&m.edge(true)), tree_walk(&m.edge(false))],
         ),
     }
 }
@@ -386,6 +403,32 @@ fn bound_of(s: &S) -> Bound<Version> {
     }
 }
 
+/// Deserialize along three routes: JSON text without escapes (may lend a borrowed &str), JSON text whose first character is
+/// written as a \uXXXX escape (owned string only), and an owned serde_json::Value.  They must agree.
+fn name_de<T: AsRef<str> + serde::de::DeserializeOwned>(s: &str) -> S {
+    let json = serde_json::to_string(s).unwrap();
+    let a = serde_json::from_str::<T>(&json).map(|n| n.as_ref().to_string()).ok();
+    let b = serde_json::from_value::<T>(serde_json::Value::String(s.to_string())).map(|n| n.as_ref().to_string()).ok();
+    let mut cs = s.chars();
+    let c = match cs.next() {
+        Some(first) if (first as u32) < 0x10000 => {
+            let rest: String = cs.collect();
+            let rest_json = serde_json::to_string(&rest).unwrap();
+            let esc = format!("\"\\u{:04x}{}", first as u32, &rest_json[1..]);
+            serde_json::from_str::<T>(&esc).map(|n| n.as_ref().to_string()).ok()
+        }
+        _ => a.clone(),
+    };
+    if a == b && b == c {
+        match a {
+            Some(n) => S::tag("ok", vec![S::str(&n)]),
+            None => S::a("err"),
+        }
+    } else {
+        S::tag("ok", vec![S::str(&format!("<<deserializers disagree: text {:?}, value {:?}, escaped text {:?}>>", a, b, c))])
+    }
+}
+
 fn name_res<T: AsRef<str>, E>(r: Result<T, E>) -> S {
     match r {
         Ok(n) => S::tag("ok", vec![S::str(n.as_ref())]),
@@ -448,14 +491,26 @@ impl St {
                 };
                 v.push(back);
                 let json = serde_json::to_string(&r).unwrap();
-                let de = match serde_json::from_str::<Requirement<T>>(&json) {
+                // two routes: JSON text (may lend a borrowed &str) and an owned serde_json::Value; they must agree
+                let by_value = serde_json::from_str::<serde_json::Value>(&json)
+                    .map_err(|e| e.to_string())
+                    .and_then(|v| serde_json::from_value::<Requirement<T>>(v).map_err(|e| e.to_string()));
+                let by_text = serde_json::from_str::<Requirement<T>>(&json).map_err(|e| e.to_string());
+                let de_res = match (by_text, by_value) {
+                    (Ok(a), Ok(b)) if a == b => Ok(a),
+                    (Ok(_), Ok(_)) => Err("deserializing the JSON text and the JSON value give different requirements".to_string()),
+                    (Err(a), Err(_)) => Err(a),
+                    (Ok(_), Err(b)) => Err(format!("deserializes from JSON text but not from a JSON value: {}", b)),
+                    (Err(a), Ok(_)) => Err(format!("deserializes from a JSON value but not from JSON text: {}", a)),
+                };
+                let de = match de_res {
                     Ok(r3) => {
                         let mut x = vec![S::bool(r3 == r), S::bool(r3.name == r.name), S::bool(r3.extras == r.extras),
                                          S::bool(r3.version_or_url == r.version_or_url), S::bool(r3.marker == r.marker)];
                         x.append(&mut self.push(r3.marker.clone()));
                         S::tag("ok", x)
                     }
-                    Err(e) => S::tag("err", vec![S::str(&e.to_string())]),
+                    Err(e) => S::tag("err", vec![S::str(&e)]),
                 };
                 v.push(S::str(&json));
                 v.push(de);
@@ -490,7 +545,7 @@ impl St {
             // ---- names (C09)
             "name" => {
                 let s = l[1].string();
-                let json = serde_json::to_string(&s).unwrap();
+                let _json = serde_json::to_string(&s).unwrap();
                 let p_new = PackageName::new(s.clone());
                 let dist = match &p_new {
                     Ok(p) => S::tag("ok", vec![S::str(&p.as_dist_info_name())]),
@@ -501,10 +556,10 @@ impl St {
                     vec![
                         name_res(p_new),
                         name_res(PackageName::from_str(&s)),
-                        name_res(serde_json::from_str::<PackageName>(&json)),
+                        name_de::<PackageName>(&s),
                         name_res(ExtraName::new(s.clone())),
                         name_res(ExtraName::from_str(&s)),
-                        name_res(serde_json::from_str::<ExtraName>(&json)),
+                        name_de::<ExtraName>(&s),
                         dist,
                     ],
                 )
@@ -648,10 +703,109 @@ impl St {
                     origin: None,
                 };
                 let r5 = req.evaluate_markers(&env, &ex);
+                let (r6, w6) = req.evaluate_markers_and_report(&env, &ex);
                 S::tag(
                     "ok",
-                    vec![S::bool(r1), S::bool(r2), S::bool(r3), S::bool(r4), S::bool(r5), warnings(&w2), warnings(&w3)],
+                    vec![S::bool(r1), S::bool(r2), S::bool(r3), S::bool(r4), S::bool(r5), warnings(&w2), warnings(&w3), S::bool(r6), warnings(&w6)],
                 )
+            }
+            "envcheck" => {
+                // the environment built by the builder, the same built with the `with_*` setters on top of an unrelated
+                // environment, and the accessors: every field must come back as given
+                let v: Vec<String> = l[1].list().iter().map(|x| x.string()).collect();
+                let env = match env_of(&l[1]) {
+                    Ok(e) => e,
+                    Err(e) => return S::tag("badenv", vec![S::str(&e)]),
+                };
+                let base = MarkerEnvironment::try_from(MarkerEnvironmentBuilder {
+                    implementation_name: "q0",
+                    implementation_version: "0.1",
+                    os_name: "q2",
+                    platform_machine: "q3",
+                    platform_python_implementation: "q4",
+                    platform_release: "q5",
+                    platform_system: "q6",
+                    platform_version: "q7",
+                    python_full_version: "0.2.3",
+                    python_version: "0.2",
+                    sys_platform: "q10",
+                })
+                .unwrap();
+                let sv = |t: &str| pep508_rs::StringVersion::from_str(t).unwrap();
+                let built = base
+                    .with_implementation_name(v[0].clone())
+                    .with_implementation_version(sv(&v[1]))
+                    .with_os_name(v[2].clone())
+                    .with_platform_machine(v[3].clone())
+                    .with_platform_python_implementation(v[4].clone())
+                    .with_platform_release(v[5].clone())
+                    .with_platform_system(v[6].clone())
+                    .with_platform_version(v[7].clone())
+                    .with_python_full_version(sv(&v[8]))
+                    .with_python_version(sv(&v[9]))
+                    .with_sys_platform(v[10].clone());
+                let h = |t: &MarkerEnvironment| {
+                    let mut s = std::collections::hash_map::DefaultHasher::new();
+                    t.hash(&mut s);
+                    s.finish()
+                };
+                let mut bad: Vec<S> = Vec::new();
+                if built != env || h(&built) != h(&env) {
+                    bad.push(S::str("with_* chain differs from the builder"));
+                }
+                for e in [&env, &built] {
+                    let acc = [
+                        (e.implementation_name().to_string(), 0),
+                        (e.implementation_version().string.clone(), 1),
+                        (e.os_name().to_string(), 2),
+                        (e.platform_machine().to_string(), 3),
+                        (e.platform_python_implementation().to_string(), 4),
+                        (e.platform_release().to_string(), 5),
+                        (e.platform_system().to_string(), 6),
+                        (e.platform_version().to_string(), 7),
+                        (e.python_full_version().string.clone(), 8),
+                        (e.python_version().string.clone(), 9),
+                        (e.sys_platform().to_string(), 10),
+                    ];
+                    for (got, i) in acc.iter() {
+                        if got != &v[*i] {
+                            bad.push(S::str(&format!("accessor of field {} returns {:?}", i, got)));
+                        }
+                    }
+                    use MarkerValueString as K;
+                    let gs = [
+                        (K::ImplementationName, 0),
+                        (K::OsName, 2),
+                        (K::OsNameDeprecated, 2),
+                        (K::PlatformMachine, 3),
+                        (K::PlatformMachineDeprecated, 3),
+                        (K::PlatformPythonImplementation, 4),
+                        (K::PlatformPythonImplementationDeprecated, 4),
+                        (K::PythonImplementationDeprecated, 4),
+                        (K::PlatformRelease, 5),
+                        (K::PlatformSystem, 6),
+                        (K::PlatformVersion, 7),
+                        (K::PlatformVersionDeprecated, 7),
+                        (K::SysPlatform, 10),
+                        (K::SysPlatformDeprecated, 10),
+                    ];
+                    for (k, i) in gs.iter() {
+                        if e.get_string(k) != v[*i] {
+                            bad.push(S::str(&format!("get_string({}) returns {:?}", k, e.get_string(k))));
+                        }
+                    }
+                    let gv = [
+                        (MarkerValueVersion::ImplementationVersion, 1),
+                        (MarkerValueVersion::PythonFullVersion, 8),
+                        (MarkerValueVersion::PythonVersion, 9),
+                    ];
+                    for (k, i) in gv.iter() {
+                        if e.get_version(k) != &Version::from_str(&v[*i]).unwrap() {
+                            bad.push(S::str(&format!("get_version({}) returns {}", k, e.get_version(k))));
+                        }
+                    }
+                }
+                S::tag("ok", vec![S::l(bad)])
             }
             "evalx" => {
                 let a = &self.regs[l[1].idx()];
@@ -695,7 +849,11 @@ impl St {
                 let c = a.contents().map(|c| c.to_string());
                 let j = a.contents().map(|c| serde_json::to_string(&c).unwrap());
                 let jback = j.as_ref().map(|j| serde_json::from_str::<String>(j).unwrap());
-                let de = j.as_ref().and_then(|j| serde_json::from_str::<MarkerTree>(j).ok());
+                let de = j.as_ref().and_then(|j| {
+                    let a = serde_json::from_str::<MarkerTree>(j).ok();
+                    let b = serde_json::from_str::<serde_json::Value>(j).ok().and_then(|v| serde_json::from_value::<MarkerTree>(v).ok());
+                    if a == b { a } else { None }
+                });
                 let same = t == c && t == jback;
                 match t {
                     None => S::tag("ok", vec![S::a("none")]),
@@ -830,6 +988,18 @@ impl St {
                     let d = trees[j].is_disjoint(&trees[(j + 1) % k]);
                     expected.push((x, y, d));
                 }
+                // requires-python simplification / complexification and extras restriction of every marker, for four lower bounds
+                let lows: Vec<Version> = (0..4u64).map(|b| Version::new([3, 6 + b])).collect();
+                let ab: Vec<ExtraName> = vec![ExtraName::from_str("a").unwrap(), ExtraName::from_str("b").unwrap()];
+                let mut expected2: Vec<(Vec<MarkerTree>, Vec<MarkerTree>, MarkerTree)> = Vec::new();
+                for j in 0..k {
+                    let c: Vec<MarkerTree> = lows.iter().map(|v| trees[j].clone().complexify_python_versions(Bound::Included(v), Bound::Unbounded)).collect();
+                    let s: Vec<MarkerTree> = lows.iter().map(|v| trees[j].clone().simplify_python_versions(Bound::Included(v), Bound::Unbounded)).collect();
+                    expected2.push((c, s, trees[j].clone().simplify_extras(&ab)));
+                }
+                let expected2 = std::sync::Arc::new(expected2);
+                let lows = std::sync::Arc::new(lows);
+                let ab = std::sync::Arc::new(ab);
                 let trees = std::sync::Arc::new(trees);
                 let texts = std::sync::Arc::new(texts);
                 let expected = std::sync::Arc::new(expected);
@@ -843,6 +1013,9 @@ impl St {
                     let trees = trees.clone();
                     let texts = texts.clone();
                     let expected = expected.clone();
+                    let expected2 = expected2.clone();
+                    let lows = lows.clone();
+                    let ab = ab.clone();
                     let heavy = heavy.clone();
                     let barrier = barrier.clone();
                     std::thread::spawn(move || {
@@ -873,6 +1046,22 @@ impl St {
                                 y.or(trees[(j + 2) % k].clone());
                                 let d = trees[j].is_disjoint(&trees[(j + 1) % k]);
                                 let reparsed_ok = if it % 16 == 0 { MarkerTree::from_str(&texts[j]).ok().as_ref() == Some(&trees[j]) } else { true };
+                                if it % 32 == 0 {
+                                    // the other mutating entry points, and the constant TRUE complexified to a bound nobody has used yet
+                                    let b = (it / 32) % lows.len();
+                                    let c = trees[j].clone().complexify_python_versions(Bound::Included(&lows[b]), Bound::Unbounded);
+                                    let s = trees[j].clone().simplify_python_versions(Bound::Included(&lows[b]), Bound::Unbounded);
+                                    let e = trees[j].clone().simplify_extras(&ab);
+                                    let fresh = Version::new([3, 100 + (t as u64) * 10_000_000 + it as u64]);
+                                    let f = MarkerTree::TRUE.complexify_python_versions(Bound::Included(&fresh), Bound::Unbounded);
+                                    let f_ok = f.try_to_string() == Some(format!("python_full_version >= '{}'", fresh));
+                                    if c != expected2[j].0[b] || s != expected2[j].1[b] || e != expected2[j].2 || !f_ok {
+                                        bad += 1;
+                                        if first.is_none() {
+                                            first = Some((j, format!("complexify {:?} / simplify {:?} / simplify_extras {:?} / TRUE complexified to >= {}: {:?}", c.try_to_string(), s.try_to_string(), e.try_to_string(), fresh, f.try_to_string())));
+                                        }
+                                    }
+                                }
                                 if x != expected[j].0 || y != expected[j].1 || d != expected[j].2 || !reparsed_ok {
                                     bad += 1;
                                     if first.is_none() {
@@ -1047,6 +1236,22 @@ impl St {
                         v.push(if wd.is_some() { warnings(&w) } else { S::a("na") });
                         v.push(S::str(&shown));
                         v.push(contents);
+                        // the requirement-level evaluators against the marker's own, on a few extras sets
+                        let env = env_of(&S::l(["cpython", "3.8.1", "posix", "x86_64", "CPython", "5.4", "Linux", "#1 SMP", "3.8.1", "3.8", "linux"].iter().map(|x| S::str(x)).collect())).unwrap();
+                        let mut bad: Vec<S> = Vec::new();
+                        for names in [vec![], vec!["a"], vec!["b"], vec!["dev"], vec!["x"], vec!["a", "b", "dev", "x", "x-y"]] {
+                            let ex: Vec<ExtraName> = names.iter().map(|n| ExtraName::from_str(n).unwrap()).collect();
+                            if r.evaluate_markers(&env, &ex) != r.marker.evaluate(&env, &ex) {
+                                bad.push(S::str(&format!("evaluate_markers differs from marker.evaluate with extras {:?}", names)));
+                            }
+                            if r.evaluate_optional_environment(Some(&env), &ex) != r.marker.evaluate(&env, &ex) {
+                                bad.push(S::str(&format!("evaluate_optional_environment(Some) differs from marker.evaluate with extras {:?}", names)));
+                            }
+                            if r.evaluate_optional_environment(None, &ex) != r.marker.evaluate_optional_environment(None, &ex) {
+                                bad.push(S::str(&format!("evaluate_optional_environment(None) differs from the marker's with extras {:?}", names)));
+                            }
+                        }
+                        v.push(S::l(bad));
                         S::tag("ok", v)
                     }
                     Err(e) => error(&e),
